@@ -25,6 +25,10 @@ var c11StreamDefs = [][]string{
 	{"OTHERhello", "BLANK", "BLANK", "FUNC", "FILE", "CREATED", "OTHERexit", "GHDR7", "WARN", "OTHERhello"},
 	{"HDR1", "FUNC", "FILE", "BLANK", "HDR2", "FUNCbadargs", "OTHERhello", "OTHERexit"},
 	{"OTHERhello", "HDR3ann", "FUNCesc", "FILE", "CREATEDin", "FILE", "OTHERhello", "OTHERpanic", "OTHER$"},
+	{"OTHERhello", "SEP", "HDR1", "FUNC", "FILE", "BLANK", "HDR2", "FUNC", "FILE", "OTHERexit", "OTHERhello"},
+	{"OTHERhello", "SEP", "WARN", "HDR1", "FUNC", "FILE", "OTHERexit", "OTHERhello"},
+	{"OTHERhello", "SEP", "SEP", "WARN", "OPHDRr7", "RFUNC", "RFILE", "BLANK", "GHDR7", "RFUNC", "RFILE", "SEP", "OTHERexit", "OTHERhello"},
+	{"SEP", "WARN", "SEP", "WARN", "OPHDRw7", "RFUNC", "RFILE", "BLANK", "GHDR7", "RFUNC", "RFILE", "SEP", "SEP", "OTHERhello", "OTHERexit"},
 }
 
 func c11Stream(def []string, crlf bool) []rline.Line {
@@ -158,7 +162,7 @@ func TestVerifC11(t *testing.T) {
 	defer r.Finish(func(s string) { t.Error(s) })
 	N := bufLen()
 	r.Set("reader_buffer_bytes", N)
-	r.Set("rule", "8 labelled streams (junk / dump / junk, two dumps, race report, preamble look-alikes, indented, malformed) x LF/CRLF x all chunkings with <=2 (thorough 3) split points + byte-at-a-time + line-at-a-time, real and 64-byte buffers; a monitor runs at every Read call (the source would block now): every complete pass-through line delivered so far except the last complete one (or a held race preamble of <=2 lines) is already written; once the line ending the current dump is delivered no further input is requested before ScanSnapshot returns. non-trivial = at least one split inside a dump; distinct = (stream, eol, chunking)")
+	r.Set("rule", "12 labelled streams (junk / dump / junk, two dumps, race report, preamble look-alikes, indented, malformed) x LF/CRLF x all chunkings with <=2 (thorough 3) split points + byte-at-a-time + line-at-a-time, real and 64-byte buffers; a monitor runs at every Read call (the source would block now): every complete pass-through line delivered so far except the last complete one (or a held race preamble of <=2 lines) is already written; once the line ending the current dump is delivered no further input is requested before ScanSnapshot returns. non-trivial = at least one split inside a dump; distinct = (stream, eol, chunking)")
 	r.Set("assumptions", []string{"pass-through lines are those the reference automaton classifies so on the full stream", "a '==================' [+ 'WARNING: DATA RACE'] preamble needs two lines of look-ahead by the report format itself; it is exempt while it is the tail of the delivered lines"})
 	if rv := r.ReplayFile(); rv != nil {
 		t.Logf("replay %s: %s", rv.Key, rv.Summary)
